@@ -48,6 +48,15 @@ def traces2Of (p : Platform) : List (String × Nat × String × String × List S
 def Mode.ofTag? (s : String) : Option Mode :=
   if s == "fallback" then some .fallback else if s == "rerun" then some .rerun else none
 
+/-- native status codes of the identity's `PROC_STATUSES` / the ones mapped to `STATUS_ZOMBIE` -/
+def statusCodesOf (p : Platform) : List String := (Gen.C20.statusCodes.lookup p.key).getD []
+def zombieCodesOf (p : Platform) : List String := (Gen.C20.zombieCodes.lookup p.key).getD []
+
+/-- `is_zombie` comparison shape per module and the zombie codes per identity, as extracted -/
+def zcfg : ZCfg :=
+  { probe := fun f => ZProbe.ofTag ((Gen.C20.zombieProbe.lookup f.key).getD "?")
+    zombieCodes := zombieCodesOf }
+
 def slotMapOf (key : String) : SlotMap := (Gen.C20.slotMaps.lookup key).getD []
 
 def feedsOf (f : Family) : List (String × String × String × String) :=
